@@ -24,6 +24,40 @@ def platform_error_adt(F):
 
 # --------------------------------------------------------------------------- ERR-MAP
 
+def rule_try_conv(ctx, cfg, F):
+    R = ctx.rule("TRY-CONV", "in every ipc-layer function that polls the platform receiver (try_recv / try_recv_timeout) the platform error reaches the caller through the conversion into TryRecvError "
+                 "(the one that classifies would-block as Empty), never through the conversion into IpcError wrapped afterwards")
+    err = platform_error_adt(F)
+    n = 0
+    for f in sorted(F.fns.values(), key=lambda x: x.path):
+        if not (f.path.startswith("ipc::") or f.path.startswith("<ipc::")) or err is None:
+            continue
+        polls = [b for b, t in f.calls() if strip_generics(callee_name(t)).endswith(("::OsIpcReceiver::try_recv", "::OsIpcReceiver::try_recv_timeout"))]
+        if not polls:
+            continue
+        n += 1
+        good, bad = [], []
+        for b, t in f.calls():
+            g = " ".join(t.get("generics") or []) + " " + " ".join(t.get("resolved_generics") or [])
+            if err not in g:
+                continue
+            nm = strip_generics(t.get("callee") or "")
+            if not (nm.endswith("::from") or nm.endswith("::into") or nm.endswith("from_residual") or nm.endswith("::map_err")):
+                continue
+            if "ipc::TryRecvError" in g:
+                good.append(b)
+            elif "ipc::IpcError" in g:
+                bad.append(b)
+        if bad:
+            R.violate("%s:poll-error-through-IpcError" % strip_generics(f.path), "%s converts the platform error of a polling receive into IpcError: would-block is then reported as an I/O error instead of Empty" % f.path,
+                      f.path, f.loc(bad[0]), config=cfg)
+        elif not good:
+            R.violate("%s:poll-error-unconverted" % strip_generics(f.path), "%s polls the platform receiver but no conversion of its error into TryRecvError was found" % f.path, f.path, f.loc(polls[0]), config=cfg)
+        else:
+            R.ok("%s: the platform error goes through the conversion into TryRecvError" % f.path, f.loc(good[0]), cfg)
+    R.count("polling_fns[%s]" % cfg, n)
+
+
 def rule_err_map(ctx, cfg, F):
     R = ctx.rule("ERR-MAP", "in the conversions of the platform error into IpcError / TryRecvError: Disconnected is constructed exactly on the "
                  "closed variant, TryRecvError::Empty exactly on the would-block class (EAGAIN/EWOULDBLOCK or the in-process empty variant), "
